@@ -14,6 +14,9 @@ claimed = {
  "C02": dict(cat="exploration", ref="5/C02",
    text="Seeded search over the full engine configuration matrix with simulated peers (bursts around the read-buffer size, pauses, half-close/close/reset, echo and concurrent writers) on the simulated kernel; oracle: per connection the concatenation of data-callback arguments is a prefix of what the kernel model made readable and equals it at quiescence for connections that stay open or end orderly; callbacks of one connection never overlap; UDP: same connection object per remote, one callback per queued datagram with equal payload; a progress-free fair phase dominated by reads is a spinning reader.",
    tech="deterministic simulation: seeded scheduler + simulated epoll/sockets over the configuration matrix, inbound byte-stream reference model, livelock detection"),
+ "C03": dict(cat="exploration", ref="5/C03",
+   text="Seeded search over connection histories (accepted / added / asynchronously dialed with connected, refused and never-answered outcomes) ended by every cause, several at once, with injected dup and EPOLL_CTL_ADD failures and a final Engine.Stop; oracle: per-connection lifecycle automaton fed by callbacks and API returns (open before close, exactly one close by quiescence and by the time Stop returns, none without open, first-cause error by event order, closed indication and no descriptor access after Close returned, dial outcome exactly once and truthful against the kernel model).",
+   tech="deterministic simulation: seeded interleaving + fault search with a lifecycle reference automaton"),
  "C04": dict(cat="exploration", ref="5/C04",
    text="Bounded liveness by simulation: after the generated history all faults stop, scheduling becomes fair and the peer keeps reading; at quiescence every accepted byte must have arrived while the connection is open, and a progress-free fair phase (30000 steps) is a livelock. Backlogs are created from goroutines, open/data callbacks and before epoll registration, in LT/ET/ONESHOT.",
    tech="deterministic simulation: bounded-liveness check in a fault-free fair phase after seeded fault/schedule search"),
